@@ -241,13 +241,14 @@ void val_create_one(Run& r, std::index_sequence<I...>)
     {   // val(v) holds the VALUE it was given (its type decayed), not a view of the caller's object
         std::string src = "a default name that is long enough for the heap " + std::to_string(v);
         const std::string want = src;
-        auto fs = ctpg::ftors::val(src);
+        std::string src2 = src;
+        auto fs = ctpg::ftors::val(std::move(src2));          // val takes its value as an rvalue (val(7), val(std::move(s)), val(std::string(...)))
         auto fm = ctpg::ftors::val(std::string(src));
-        src.assign(src.size(), '#');
+        src.assign(src.size(), '#'); src2.assign(8, '#');
         auto rs = fs(pass<Cat, false>(args[I])...); auto rm = fm(pass<Cat, false>(args[I])...);
         if constexpr (!std::is_same_v<decltype(rs), std::string> || !std::is_same_v<decltype(rm), std::string>) r.fail(Run::where("val(std::string) does not return a std::string", K, 0, 0, Cat));
         else if (rs != want || rm != want) r.fail(Run::where("val(v) does not return the value it was given (it follows later changes of the caller's object)", K, 0, 0, Cat));
-        const char* lit = "lit"; auto fl = ctpg::ftors::val(lit);
+        auto fl = ctpg::ftors::val(static_cast<const char*>("lit"));
         if constexpr (!std::is_same_v<decltype(fl()), const char*>) r.fail(Run::where("val(const char*) does not return a const char*", K, 0, 0, Cat));
     }
     // zero arguments are legal as well (empty rules)
